@@ -37,7 +37,7 @@ COMPONENTS = {
 
 VALUES = [("str", "QUJD"), ("int", 7), ("float", 1.5), ("true", True), ("false", False), ("null", None), ("list-empty", []), ("list-str", ["kid"]),
           ("list-two", ["alg", "nope"]), ("list-int", [1]), ("list-mixed", ["a", 2]), ("dict-empty", {}), ("dict-jwk", {"kty": "oct", "k": "QUJD"}), ("url", "https://a.example/x"),
-          ("other-scheme", "ftp://a.example/x")]
+          ("other-scheme", "ftp://a.example/x"), ("url-upper-scheme", "HTTPS://A.example/x")]
 TYPES = {"kid": "str", "x5t": "str", "x5t#S256": "str", "typ": "str", "cty": "str", "jku": "url", "x5u": "url", "jwk": "jwk", "x5c": "list[str]",
          "crit": "list[str]", "b64": "bool"}
 ALG_SPECIFIC = {"ECDH-ES": {"epk": "jwk", "apu": "str", "apv": "str"}, "PBES2-HS256+A128KW": {"p2s": "str", "p2c": "int"},
@@ -70,7 +70,7 @@ def type_ok(kind: str, v) -> bool | None:
     if kind == "url":
         if not isinstance(v, str):
             return False
-        return True if v.startswith(("http://", "https://")) else None
+        return True if v.lower().startswith(("http://", "https://")) else None      # schemes are case-insensitive (RFC 3986, 3.1)
     raise ValueError(kind)
 
 
